@@ -28,7 +28,7 @@ def plan(tier):
 
 
 def n_cases(tier):
-    return 8000 if tier == 'thorough' else 400
+    return 3500 if tier == 'thorough' else 400
 
 
 def one_case(rng, tier):
